@@ -1,5 +1,4 @@
 SPECIFICATION Spec
 CONSTRAINT Mark
-INVARIANT InvGen
 POSTCONDITION Report
 CHECK_DEADLOCK FALSE
